@@ -303,6 +303,7 @@ Import String.StringSyntax.
 Open Scope string_scope.
 Definition ls_translate (method loss : string) (tol maxit : Q) : ls_call :=
   mk_lsc method loss [("max_nfev", inject_Z (Qfloor maxit)); ("xtol", tol)].
+Definition ls_option_names : list string := ["max_nfev"; "xtol"].
 Close Scope string_scope.
 (* minimize.solve / maximize.solve: opt.minimize(func, x0, jac = gradfunc, method = method, **kwargs) *)
 Record mz_call := mk_mz { mz_method : option string; mz_jac_given : bool; mz_options : list (string * Q) }.
